@@ -86,7 +86,7 @@ def theorems_of(prop):
 def print_assumptions(prop, names):
     """Ask Coq (fresh coqc run) for the axioms each property theorem depends on.
     Returns {theorem: [axioms]} for the theorems that exist in the compiled Props file."""
-    d = os.path.join(BUILD, "pa"); os.makedirs(d, exist_ok=True)
+    d = os.path.join(BUILD, "pa", str(os.getpid())); os.makedirs(d, exist_ok=True)
     fn = os.path.join(d, f"PA_{prop}.v")
     with open(fn, "w") as f:
         f.write(f"From TLV Require Import Props.{prop}.\n")
@@ -97,6 +97,8 @@ def print_assumptions(prop, names):
                        capture_output=True, text=True, cwd=d)
     out = r.stdout
     res = {}
+    import shutil
+    shutil.rmtree(d, ignore_errors=True)
     if r.returncode != 0:
         return res, r.stdout + r.stderr
     chunks = re.split(r"@@BEGIN (\w+)\n", out)
@@ -126,10 +128,9 @@ def run_case_shards(prop, header, case_type, cases, shard=300, timeout=600, tag=
     """cases: list of Gallina terms of type `case` (strings, already carrying their id).
     Each shard file evaluates `(length cs, failing cs)` with vm_compute.
     Returns (set of failing ids, n_evaluated, list of not-evaluated shard descriptions)."""
-    d = os.path.join(BUILD, "cases", prop, tag)
-    if os.path.isdir(d):
-        for f in os.listdir(d):
-            os.unlink(os.path.join(d, f))
+    import shutil
+    d = os.path.join(BUILD, "cases", prop, f"{tag}_{os.getpid()}")   # per-process: concurrent runs never share case files
+    shutil.rmtree(d, ignore_errors=True)
     os.makedirs(d, exist_ok=True)
     files = []
     for k in range(0, len(cases), shard):
@@ -161,6 +162,8 @@ def run_case_shards(prop, header, case_type, cases, shard=300, timeout=600, tag=
         n_eval += n
         ids = [int(x) for x in m.group(2).replace(" ", "").split(";") if x]
         failing.update(ids)
+    if not broken and not os.environ.get("VERIF_KEEP_CASES"):
+        shutil.rmtree(d, ignore_errors=True)
     return failing, n_eval, broken
 
 
